@@ -153,6 +153,8 @@ func genFramingDir(dir string) func(t *rapid.T) Framing {
 				s := genSize(t, "replySize")
 				if rapid.IntRange(0, 7).Draw(t, "replyOver") == 0 {
 					s = rapid.SampledFrom([]int{65536, 65537, 70000}).Draw(t, "replyOversize")
+				} else if c.API == "WriteMsg" && rapid.IntRange(0, 9).Draw(t, "replyUnsignable") == 0 {
+					s = unsignable
 				}
 				c.ReplySizes = append(c.ReplySizes, s)
 			}
@@ -178,7 +180,7 @@ func genFaultAt(t *rapid.T, sizes []int) int {
 	total := 0
 	var marks []int
 	for _, s := range sizes {
-		if s > 65535 {
+		if s > 65535 || s < 0 {
 			continue
 		}
 		marks = append(marks, total, total+1, total+2, total+3, total+2+s-1, total+2+s)
@@ -231,6 +233,9 @@ func (c *Framing) classes() (cl []string, nontrivial bool) {
 	}
 	for _, s := range append(append([]int(nil), c.Sizes...), c.ReplySizes...) {
 		switch {
+		case s == unsignable:
+			cl = append(cl, "reply-unsignable-tsig")
+			nontrivial = true
 		case s > 65535:
 			cl = append(cl, "size>65535")
 			nontrivial = true
@@ -489,6 +494,9 @@ func (r rawSpy) ReadTCP(conn net.Conn, timeout time.Duration) ([]byte, error) {
 
 const hangLimit = 20 * time.Second
 
+// unsignable as a reply "size": a reply that carries a TSIG stub for a key the server lacks.
+const unsignable = -1
+
 func checkServerFraming(c Framing) error {
 	if len(c.ReplySizes) == 0 {
 		return fmt.Errorf("malformed case")
@@ -506,6 +514,7 @@ func checkServerFraming(c Framing) error {
 		MsgAcceptFunc:     func(dns.Header) dns.MsgAcceptAction { return dns.MsgAccept },
 		NotifyStartedFunc: func() { close(started) },
 		DecorateReader:    func(r dns.Reader) dns.Reader { return rawSpy{r, &mu, &raws} },
+		TsigSecret:        map[string]string{"known-key.": "c2VjcmV0"},
 	}
 	srv.Handler = dns.HandlerFunc(func(w dns.ResponseWriter, req *dns.Msg) {
 		mu.Lock()
@@ -516,6 +525,12 @@ func checkServerFraming(c Framing) error {
 		seed := byte(i*31 + 7)
 		var err error
 		switch {
+		case rs == unsignable:
+			// a reply that asks for a TSIG with a key the server does not have: it cannot be
+			// signed, so it must be refused - error to the handler, nothing on the wire
+			m := libMsg(req.Id, 64, seed, true)
+			m.SetTsig("no-such-key.", dns.HmacSHA256, 300, time.Now().Unix())
+			err = w.WriteMsg(m)
 		case rs > 65535 && c.API == "WriteMsg":
 			m := bigMsg(req.Id, rs, seed)
 			m.Response = true
@@ -611,6 +626,12 @@ func checkServerFraming(c Framing) error {
 	faulted := false
 	for i := 0; i < complete; i++ {
 		rs := c.ReplySizes[i%len(c.ReplySizes)]
+		if rs == unsignable {
+			if writeErrs[i] == nil {
+				return fmt.Errorf("reply %d asks for a TSIG with a key the server does not have, yet WriteMsg reported success; a reply that cannot be signed must be refused", i)
+			}
+			continue // and nothing may have reached the conn: checked against expected below
+		}
 		if rs > 65535 {
 			if writeErrs[i] == nil {
 				return fmt.Errorf("reply %d of %d octets was accepted by the response writer's %s; it must be refused", i, rs, c.API)
